@@ -71,11 +71,13 @@ prov_cancel(nng_aio *aio, void *arg, nng_err rv)
 static int
 prov_begin(int k, int reset)
 {
-	if (reset) nng_aio_reset(aios[k]);
+	// with reset: the public provider entry (nng_aio_start resets first);
+	// without: what the library's own providers do (nni_aio_start on the aio as it is)
 	pthread_mutex_lock(&prov_mtx);
 	fin_valid[k] = 0;
 	__atomic_add_fetch(&n_sub[k], 1, __ATOMIC_SEQ_CST);
-	if (!nng_aio_start(aios[k], prov_cancel, (void *) (intptr_t) k)) {
+	if (!(reset ? nng_aio_start(aios[k], prov_cancel, (void *) (intptr_t) k)
+	            : nni_aio_start(aios[k], prov_cancel, (void *) (intptr_t) k))) {
 		pthread_mutex_unlock(&prov_mtx);
 		return 0;
 	}
@@ -173,7 +175,9 @@ stress_thread(void *arg)
 					pthread_mutex_unlock(&prov_mtx);
 					nng_sleep_aio((nng_duration) (RND() % 3), aios[k]);
 				} else {
-					(void) prov_begin(k, RND() % 2);
+					// always through the public entry (which resets): a start on a stale
+					// a_abort with a_result == 0 is the late-abort finding and trips NNI_ASSERT
+					(void) prov_begin(k, 1);
 				}
 			}
 		} else if (op < 60) {
